@@ -174,7 +174,7 @@ pub fn record(seed: u64, tier: &str, out_path: &str, workdir: &str) {
         if rng.chance(1, 12) && src == "file" { w["multidoc"] = json!(true); }
         if rng.chance(1, 10) { w["seed"] = json!(*rng.pick(&["short", "long", "nonhex", "missing", "odd", "digits", "zeros", "lzdigits", "shortdigits", "zero1"])); }
         if rng.chance(1, 20) { w["interface"] = json!("missing"); }
-        if rng.chance(1, 3) { w["client_stats"] = json!(*rng.pick(&["on", "yes", "off"])); }
+        if rng.chance(1, 3) { w["client_stats"] = json!(*rng.pick(&["on", "yes", "off", "ON", "On", "oN", "YES", "Yes", "yEs", "OFF", "no", "enabled", "onn"])); }
         if rng.chance(1, 3) { w["persistence_directory"] = json!("dir"); }
         if src == "file" && rng.chance(1, 15) { w["unknown_key"] = json!(true); }
         let o = probe(src, &w, workdir);
@@ -195,7 +195,7 @@ fn classify(w: &Value) -> &'static str {
     let must_refuse = g("port") == ABSENT || ["port", "batch_size", "fault_percentage", "num_workers"].iter().any(|k| g(k) != ABSENT && !inr(k, g(k)))
         || !["ok", "digits", "zeros", "lzdigits"].contains(&w["seed"].as_str().unwrap_or("")) || w["interface"] != "ok" || w["unknown_key"] == true;
     if must_refuse { return "must_refuse"; }
-    let stats_on = w["client_stats"] == "on" || w["client_stats"] == "yes";
+    let stats_on = ["on", "yes", "ON", "On", "oN", "YES", "Yes", "yEs"].contains(&w["client_stats"].as_str().unwrap_or(""));
     let must_run = w["multidoc"] != true && w["seed"] != "zeros" && w["seed"] != "lzdigits" && INT_KEYS.iter().all(|(k, _)| g(k) == ABSENT || inr(k, g(k))) && (!stats_on || w["persistence_directory"] == "dir");
     if must_run { "must_run" } else { "may" }
 }
